@@ -5,13 +5,10 @@
    overflowing addition of the modelled functions as an operation that yields `Panic why`; a read through a slice pointer behind
    the end of the slice is `Panic WOobRead`.  `C10_total_<f>` says no argument produces a Panic.  Where the code does panic the
    full statement is kept restricted to `~ Known` with `Known` a decidable input class, next to a `_refuted` witness:
-     F1  SegwitHrpstring::new_bech32 on a string with an empty data part           known_F1
-     F2  Global::merge, same xpub, other's path shorter and not a suffix            known_F2
-     F12 Transaction::blind with no output marked                                   known_F12
-     F16 TaprootBuilder::finalize on the serde-only state [None]                    known_F16
      F17 Transaction::fee_in / all_fees, sum >= 2^64 (panic with overflow checks)   known_F17
-     F18 Value/Asset::from_commitment and the PSET commitment decoders on a slice that is not 33 bytes long    known_F18
      F19 script::read_uint with size >= 9                                           known_F19
+   The model follows the repaired library: F1 (a4bc64e), F2 (4b01389), F12 (8d5600e), F16 (c723f02) and F18 (838e50c) are fixed, their
+   `_refuted` theorems and classes are gone and the five statements hold for every input.
    The allocation clause: `rsv` counts the bytes the decoders' own `vec![0; s]` / `Vec::with_capacity(len)` reserve; the bound is
    K + k * |input| with K = one MAX_VEC_SIZE per nesting level of length-prefixed vectors (3 for a block): the reservation is NOT
    proportional to the input — a 5-byte input can reserve MAX_VEC_SIZE bytes — it is bounded by that constant plus a linear term. *)
@@ -117,13 +114,11 @@ Theorem C10_segwit_new_is_model : forall s,
   | HErr e => segwit_decode cfg_blech s = Bech32.Err e
   | HPanic _ => False end.
 Proof. exact segwit_new_p_spec. Qed.
-(* new_bech32: the full statement is false (F1); it panics exactly on the known class *)
-Theorem C10_total_segwit_new_bech32 : forall s, known_F1 s = false -> hpanic (segwit_new_bech32_p s) = false.
-Proof. intros s K. now rewrite segwit_new_bech32_panic_iff. Qed.
-Theorem C10_segwit_new_bech32_refuted : exists s, segwit_new_bech32_p s = HPanic WIndex /\ known_F1 s = true.
-Proof. exists [x61; x31]. exact segwit_new_bech32_refuted. Qed.
-Theorem C10_F1_class : forall s, known_F1 s = true -> hpanic (segwit_new_bech32_p s) = true.
-Proof. intros s K. now rewrite segwit_new_bech32_panic_iff. Qed.
+(* new_bech32 (F1, repaired by a4bc64e): total for every string; an empty data part is the error MissingWitnessVersion *)
+Theorem C10_total_segwit_new_bech32 : forall s, hpanic (segwit_new_bech32_p s) = false.
+Proof. exact segwit_new_bech32_no_panic. Qed.
+Example C10_segwit_new_bech32_empty_data : segwit_new_bech32_p [x61; x31] = HErr ENoData.
+Proof. reflexivity. Qed.
 
 (* taproot and schnorr slice parsers *)
 Theorem C10_total_control_block : forall xonly_valid sl w, cb_from_slice_p xonly_valid sl <> Panic w.
@@ -143,32 +138,31 @@ Theorem C10_total_pset_values : forall (Hleaf Hbranch : bytes -> bytes) (xonly_v
   taptree_p Hleaf Hbranch maxvec bs <> Panic w.
 Proof. intros. repeat split; [apply scriptver_p_total|apply xonlyleaf_p_total|apply keysource_p_total|apply leafks_p_total|apply taptree_p_total]. Qed.
 
-(* Global::merge, xpub branch: panics exactly on the class of F2 *)
-Theorem C10_total_merge_xpub : forall f2 d2 f1 d1 w, known_F2 d2 d1 = false -> merge_xpub f2 d2 f1 d1 <> Panic w.
-Proof. intros f2 d2 f1 d1 w K H. assert (X : exists w, merge_xpub f2 d2 f1 d1 = Panic w) by eauto. apply merge_xpub_panic_iff in X. congruence. Qed.
-Theorem C10_merge_xpub_refuted : exists f2 d2 f1 d1, merge_xpub f2 d2 f1 d1 = Panic WSub /\ known_F2 d2 d1 = true.
-Proof. exists [x00; x00; x00; x00], [1; 2; 3], [x00; x00; x00; x00], [9]. split; reflexivity. Qed.
-Theorem C10_F2_class : forall f2 d2 f1 d1, known_F2 d2 d1 = true -> exists w, merge_xpub f2 d2 f1 d1 = Panic w.
-Proof. intros. now apply merge_xpub_panic_iff. Qed.
+(* Global::merge, xpub branch (F2, repaired by 4b01389): both length subtractions are guarded; equal paths with different
+   fingerprints are a conflict *)
+Theorem C10_total_merge_xpub : forall f2 d2 f1 d1 w, merge_xpub f2 d2 f1 d1 <> Panic w.
+Proof. exact merge_xpub_total. Qed.
+Theorem C10_merge_xpub_equal_paths_conflict : forall f2 f1 d, f1 <> f2 -> merge_xpub f2 d f1 d = Fail (E "conflict").
+Proof. exact merge_xpub_conflict_equal_paths. Qed.
 
-(* Transaction::blind, output selection: panics exactly when no output is marked (F12) *)
-Theorem C10_total_blind_select : forall outs w, known_F12 outs = false -> blind_select outs <> Panic w.
-Proof. intros outs w K H. assert (X : exists w, blind_select outs = Panic w) by eauto. apply blind_select_panic_iff in X. congruence. Qed.
-Theorem C10_blind_select_refuted : exists outs, blind_select outs = Panic WExpect /\ known_F12 outs = true.
-Proof. exists [ {| bo_fee := true; bo_marked := false; bo_addr := false |} ]. split; reflexivity. Qed.
-Theorem C10_F12_class : forall outs, known_F12 outs = true -> exists w, blind_select outs = Panic w.
-Proof. intros. now apply blind_select_panic_iff. Qed.
+(* Transaction::blind, output selection (F12, repaired by 8d5600e): no output marked is the error TooFewBlindingOutputs *)
+Theorem C10_total_blind_select : forall outs w, blind_select outs <> Panic w.
+Proof. exact blind_select_total. Qed.
+Example C10_blind_select_nothing_marked : blind_select [ {| bo_fee := true; bo_marked := false; bo_addr := false |} ] = Fail (E "toofew").
+Proof. reflexivity. Qed.
 
 (* Pset::locktime: the two `unreachable!` arms are unreachable *)
 Theorem C10_total_locktime : forall fallback inputs w, locktime_p fallback inputs <> Panic w.
 Proof. exact locktime_p_total. Qed.
 
-(* TaprootBuilder: a state reached through add_leaf / add_hidden never makes finalize panic; the serde-only state [None] does (F16) *)
-Theorem C10_builder_inv : forall items b, api_builder items = Taproot.Ok b ->
-  (b = [] \/ exists n r, b = Some n :: r) /\ forall s, finalize_p b <> Taproot.Panic s.
-Proof. intros items b R. split; [exact (run_head_some triv triv items b R)|exact (finalize_p_api items b R)]. Qed.
-Theorem C10_builder_serde_refuted : finalize_p [None] = Taproot.Panic BuilderInvariant /\ known_F16 [None] = true.
-Proof. exact finalize_p_serde_refuted. Qed.
+(* TaprootBuilder (F16, repaired by c723f02): finalize (Model/Taproot.finalize) never panics for ANY builder state, serde-built ones
+   included; API-built states moreover have their last slot filled (C15's invariant) *)
+Theorem C10_total_finalize : forall b s, finalize_p b <> Taproot.Panic s.
+Proof. exact finalize_p_total. Qed.
+Theorem C10_builder_inv : forall items b, api_builder items = Taproot.Ok b -> b = [] \/ exists n r, b = Some n :: r.
+Proof. intros items b R. exact (run_head_some triv triv items b R). Qed.
+Example C10_finalize_serde_state : finalize_p [None] = Taproot.Fail IncompleteTree.
+Proof. reflexivity. Qed.
 
 (* pegin witness, pegout script, minimum value *)
 Theorem C10_total_pegin : forall w x, from_pegin_witness w <> Panic x.
@@ -190,23 +184,22 @@ Theorem C10_fee_in_refuted : fee_in Debug [(3, 18446744073709551615); (3, 1)] 3 
   /\ known_F17 [(3, 18446744073709551615); (3, 1)] 3 = true.
 Proof. repeat split; reflexivity. Qed.
 
-(* commitments from slices: out-of-bounds read exactly when the slice is not 33 bytes long (F18) *)
-Theorem C10_total_from_commitment : forall pt_ok sl w, known_F18 sl = false -> from_commitment_p pt_ok sl <> Panic w.
-Proof. intros pt_ok sl w K H. assert (X : exists w, from_commitment_p pt_ok sl = Panic w) by eauto. apply from_commitment_panic_iff in X. congruence. Qed.
-Theorem C10_from_commitment_refuted : forall pt_ok, from_commitment_p pt_ok [] = Panic WOobRead /\ known_F18 [] = true.
-Proof. intros. split; reflexivity. Qed.
+(* commitments from slices (F18, repaired by 838e50c): the four entry points test the length before the slice reaches the C parser;
+   without that test every other length is an out-of-bounds read (read33_oob) *)
+Theorem C10_total_from_commitment : forall pt_ok sl w, from_commitment_p pt_ok sl <> Panic w.
+Proof. exact from_commitment_p_total. Qed.
+Theorem C10_from_commitment_needs_the_guard : forall pt_ok sl, (exists w, read33 pt_ok sl = Panic w) <-> length sl <> 33%nat.
+Proof. exact read33_oob. Qed.
 
 (* ================================================================================================ non-vacuity *)
 Example C10_nonvacuous :
-  (* a string of the F1 class, and one outside it that new_bech32 accepts to look at *)
-  known_F1 [x61; x31] = true /\ known_F1 [x61; x31; x71] = false /\
-  (* xpub paths inside and outside the F2 class *)
-  known_F2 [1; 2; 3] [9] = true /\ known_F2 [1; 2; 3] [3] = false /\ merge_xpub [x00] [1; 2; 3] [x00] [2; 3] = Val XKeep /\
+  (* xpub reconciliation: other a proper suffix of self -> keep; self a proper suffix of other -> replace; the former F2 witness -> conflict *)
+  merge_xpub [x00] [1; 2; 3] [x00] [2; 3] = Val XKeep /\ merge_xpub [x00] [3] [x00] [2; 3] = Val XReplace /\ merge_xpub [x00] [1; 2; 3] [x00] [9] = Fail (E "conflict") /\
   (* an output selection that succeeds: fee, marked, unmarked, marked -> both marked outputs, the second one last *)
   blind_select [ {| bo_fee := true; bo_marked := false; bo_addr := false |}; {| bo_fee := false; bo_marked := true; bo_addr := true |};
                  {| bo_fee := false; bo_marked := false; bo_addr := false |}; {| bo_fee := false; bo_marked := true; bo_addr := true |} ] = Val [1; 3]%nat /\
-  (* lock times: both kinds required by every input -> the TIME is returned (F6, C08's business), conflict when they exclude each other *)
-  locktime_p None [(Some 600000000, Some 100)] = Val 600000000 /\ locktime_p None [(Some 600000000, None); (None, Some 100)] = Fail (E "conflict") /\
+  (* lock times: both kinds required by every input -> the HEIGHT is returned (BIP370; since d70d58d), conflict when they exclude each other *)
+  locktime_p None [(Some 600000000, Some 100)] = Val 100 /\ locktime_p None [(Some 600000000, None); (None, Some 100)] = Fail (E "conflict") /\
   (* a control block of one node parses *)
   (exists c, cb_from_slice_p (fun _ => true) (xc4 :: repeat x07 64) = Val c /\ length (cb_branch c) = 1%nat) /\
   (* a pegout script: OP_RETURN, 32-byte genesis hash, 1-byte script *)
@@ -218,15 +211,14 @@ Check (C10_alloc_bound_tx : forall pt_ok maxvec sz_txin sz_txout sz_vecu8 bs,
 Check (C10_alloc_bound_block : forall pt_ok maxvec sz_txin sz_txout sz_vecu8 sz_tx bs,
   rsv (a_block pt_ok maxvec sz_txin sz_txout sz_vecu8 sz_tx) bs <= 3 * maxvec + k_block sz_txin sz_txout sz_vecu8 sz_tx * len bs).
 Check (C10_total_segwit_new : forall s, hpanic (segwit_new_p s) = false).
-Check (C10_total_segwit_new_bech32 : forall s, known_F1 s = false -> hpanic (segwit_new_bech32_p s) = false).
+Check (C10_total_segwit_new_bech32 : forall s, hpanic (segwit_new_bech32_p s) = false).
 Check (C10_total_control_block : forall xonly_valid sl w, cb_from_slice_p xonly_valid sl <> Panic w).
-Check (C10_total_merge_xpub : forall f2 d2 f1 d1 w, known_F2 d2 d1 = false -> merge_xpub f2 d2 f1 d1 <> Panic w).
-Check (C10_total_blind_select : forall outs w, known_F12 outs = false -> blind_select outs <> Panic w).
+Check (C10_total_merge_xpub : forall f2 d2 f1 d1 w, merge_xpub f2 d2 f1 d1 <> Panic w).
+Check (C10_total_blind_select : forall outs w, blind_select outs <> Panic w).
 Check (C10_total_locktime : forall fallback inputs w, locktime_p fallback inputs <> Panic w).
-Check (C10_builder_inv : forall items b, api_builder items = Taproot.Ok b ->
-  (b = [] \/ exists n r, b = Some n :: r) /\ forall s, finalize_p b <> Taproot.Panic s).
+Check (C10_total_finalize : forall b s, finalize_p b <> Taproot.Panic s).
 Check (C10_total_minimum_value : forall v opret prf x, (forall p, prf = Some p -> rangeproof_ok p = true) -> minimum_value_p v opret prf <> Panic x).
-Check (C10_total_from_commitment : forall pt_ok sl w, known_F18 sl = false -> from_commitment_p pt_ok sl <> Panic w).
+Check (C10_total_from_commitment : forall pt_ok sl w, from_commitment_p pt_ok sl <> Panic w).
 Print Assumptions C10_alloc_bound_tx.
 Print Assumptions C10_alloc_bound_block.
 Print Assumptions C10_total_segwit_new.
@@ -237,5 +229,6 @@ Print Assumptions C10_total_control_block.
 Print Assumptions C10_total_merge_xpub.
 Print Assumptions C10_total_blind_select.
 Print Assumptions C10_builder_inv.
+Print Assumptions C10_total_finalize.
 Print Assumptions C10_total_pset_values.
 Print Assumptions C10_total_templates.
